@@ -264,13 +264,16 @@ func fmtRun(res shot.Result) string {
 		strings.Contains(res.Class, "gun_warm_up_failed") {
 		return "INCONCLUSIVE machine too busy (ports / warm-up): " + res.Class
 	}
-	timeoutSeen := ""
+	timeoutSeen, tmoShape := "", ""
 	for _, s := range res.Samples {
 		if s.Net == 98 || s.Net == 99 {
 			return "INCONCLUSIVE local ports exhausted (errno " + strconv.Itoa(s.Net) + ")"
 		}
 		if s.Net == 110 {
 			timeoutSeen = " TIMEOUT-SEEN"
+		}
+		if strings.Contains(s.Shape, "timeout") || strings.Contains(s.Shape, "tmo") {
+			tmoShape = " TMO-SHAPE"
 		}
 	}
 	for _, s := range res.Samples {
@@ -289,7 +292,7 @@ func fmtRun(res shot.Result) string {
 	for _, k := range keys {
 		parts = append(parts, fmt.Sprintf("%s*%d", k, cnt[k]))
 	}
-	return fmt.Sprintf("res=%s n=%d s=%s", res.Class, len(res.Samples), strings.Join(parts, ",")) + timeoutSeen
+	return fmt.Sprintf("res=%s n=%d s=%s", res.Class, len(res.Samples), strings.Join(parts, ",")) + tmoShape + timeoutSeen
 }
 
 // gunOpts renders the optional gun settings an input line can switch on:
@@ -317,7 +320,21 @@ func gunOpts(m map[string]string) string {
 	if n := atoi(m["rht"], 0); n > 0 {
 		s += fmt.Sprintf(`, response-header-timeout: %dms`, n)
 	}
+	if m["ssl"] == "1" {
+		s += `, ssl: true`
+	}
+	if m["dka"] == "1" {
+		s += `, disable-keep-alives: true`
+	}
+	if n := atoi(m["tlsto"], 0); n > 0 {
+		s += fmt.Sprintf(`, tls-handshake-timeout: %dms`, n)
+	}
 	return s
+}
+
+// planTarget starts the per-connection scripted TLS target of a `tgt=tlsplan` case.
+func planTarget(m map[string]string) *tlsPlanTarget {
+	return newTLSPlanTarget(strings.Split(m["plan"], "/"))
 }
 
 func httpGunYAML(typ, target string, m map[string]string) string {
@@ -334,10 +351,17 @@ func runRun(m map[string]string) string {
 	obs := runRun1(m)
 	// a timeout (errno 110) where nothing was scripted to be silent: the loaded machine did not get to accept / answer
 	// within the dial or header timeout
-	if !strings.Contains(m["reqs"]+m["steps"], "acthang") && strings.Contains(obs, "TIMEOUT-SEEN") {
+	if !strings.Contains(m["reqs"]+m["steps"], "acthang") && !strings.Contains(m["plan"], "stall") && strings.Contains(obs, "TIMEOUT-SEEN") {
 		return "INCONCLUSIVE machine too busy: a connection timed out although the target was not scripted to be silent"
 	}
 	obs = strings.TrimSuffix(obs, " TIMEOUT-SEEN")
+	// a TLS handshake / dial that timed out although no connection of the plan was scripted to stall
+	if strings.HasSuffix(obs, " TMO-SHAPE") {
+		if m["tgt"] == "tlsplan" && !strings.Contains(m["plan"], "stall") && !strings.Contains(m["reqs"]+m["steps"], "acthang") {
+			return "INCONCLUSIVE machine too busy: a TLS connection timed out although the target was not scripted to stall"
+		}
+		obs = strings.TrimSuffix(obs, " TMO-SHAPE")
+	}
 	if d := time.Since(t0); d > slowRun && !strings.HasPrefix(obs, "res=hang") && !strings.HasPrefix(obs, "res=panic") {
 		return fmt.Sprintf("INCONCLUSIVE machine too busy: the run took %d s", int(d.Seconds()))
 	}
@@ -363,6 +387,12 @@ func runRun1(m map[string]string) string {
 			target = sharedTLS(m["tgt"] == "tls2")
 		case "c403", "cgarbage", "cextra", "cclose":
 			target = sharedHostile(m["tgt"]).Addr
+		case "tlsplan":
+			t := planTarget(m)
+			defer t.Close()
+			target = t.Addr
+		case "h2raw":
+			target = sharedH2Raw()
 		default:
 			target = sharedHostile("").Addr
 		}
@@ -399,6 +429,12 @@ func runRun1(m map[string]string) string {
 			target = shot.DeadAddr()
 		case "tls2", "tls1":
 			target = sharedTLS(m["tgt"] == "tls2")
+		case "tlsplan":
+			t := planTarget(m)
+			defer t.Close()
+			target = t.Addr
+		case "h2raw":
+			target = sharedH2Raw()
 		default:
 			target = sharedHostile("").Addr
 		}
@@ -902,6 +938,129 @@ func gen(r *rand.Rand, tier string) []string {
 	out = append(out, "k=run gun=http2/scenario tgt=tls1 inst=3 n=3 alog=all steps=st0,s200.bjson,r200,-")
 	out = append(out, "k=run gun=http2/scenario tgt=dead inst=1 n=2 steps=st0,s200,f,H~X-Val~s1:5;st1,s200,f,-")
 	out = append(out, "k=run gun=http2/scenario tgt=live inst=2 n=2 steps=st0,s200,f,-")
+	// TLS targets scripted PER CONNECTION (tlstarget.go): the 1st, 2nd, … handshake of the run meets an alert of any
+	// level / description, EOF, reset, garbage, a truncated or oversized record, a stall, a server without h2 … before
+	// and after connections that serve HTTP/2; with kept-alive and with one-connection-per-request clients
+	h2reqs := []string{"s200.bx5:r200", "s503.bjson:r503", "s404:r404", "s200.bx40.actmidclose:rb200", "s999.bhtml:r999", "actclose:f", "s204:r204",
+		"s200.bx30000:r200", "s500.bbadjson.hX-Val~6162:r500"}
+	plainreqs := []string{"s200.bx5:r200", "s503.bjson:r503", "s404:r404", "s999.bhtml:r999", "s204:r204", "s500.bbadjson.hX-Val~6162:r500"}
+	alertCodes := []int{10, 20, 21, 22, 30, 40, 41, 42, 43, 44, 45, 46, 47, 48, 49, 50, 51, 60, 70, 71, 80, 86, 90, 100, 109, 110, 111, 112, 113, 114, 115, 116, 121, 255}
+	randConn := func(allowFatal bool) string {
+		switch k := r.Intn(20); {
+		case k < 6:
+			return "h2"
+		case k == 6:
+			return "h2v12"
+		case k < 11:
+			return fmt.Sprintf("a2.%d", alertCodes[r.Intn(len(alertCodes))])
+		case k == 11:
+			return fmt.Sprintf("a%d.%d", []int{0, 1, 1, 3, 255}[r.Intn(5)], []int{0, 80, 120, 40, r.Intn(256)}[r.Intn(5)])
+		case k == 12:
+			return fmt.Sprintf("a2.%d", r.Intn(256))
+		case k == 13:
+			return []string{"cc12", "cc13"}[r.Intn(2)]
+		case k == 14 && allowFatal:
+			return []string{"a2.120", "h1", "noalpn"}[r.Intn(3)]
+		case k == 14:
+			return "a2.0"
+		default:
+			return []string{"warn", "eof0", "eof", "rst", "garb", "trunc", "big", "badsh"}[r.Intn(8)]
+		}
+	}
+	randPlan := func(allowFatal bool) string {
+		var p []string
+		for j := 1 + r.Intn(4); j > 0; j-- {
+			p = append(p, randConn(allowFatal))
+		}
+		if r.Intn(10) < 7 {
+			p = append(p, "h2")
+		}
+		return strings.Join(p, "/")
+	}
+	for i := 0; i < mul(70, 2500); i++ {
+		plan := randPlan(r.Intn(8) == 0)
+		if strings.Contains(plan, "a2.120") && r.Intn(2) == 0 {
+			// mostly AFTER other connections: the fatal alert in the middle of a run
+			plan = "h2/" + plan
+		}
+		dka := r.Intn(2)
+		inst := []int{1, 1, 1, 2, 3}[r.Intn(5)]
+		opts, _ := randOpts(r, false)
+		opts = strings.ReplaceAll(strings.ReplaceAll(opts, " redir=1", ""), " gz=1", "")
+		if r.Intn(3) != 0 {
+			opts = ""
+		}
+		switch k := r.Intn(10); {
+		case k < 6:
+			var reqs []string
+			for j := 2 + r.Intn(5); j > 0; j-- {
+				reqs = append(reqs, h2reqs[r.Intn(len(h2reqs))])
+			}
+			out = append(out, fmt.Sprintf("k=run gun=http2 tgt=tlsplan plan=%s dka=%d tlsto=5000 inst=%d m=%d%s reqs=%s", plan, dka, inst, 1+r.Intn(2), opts, strings.Join(reqs, ",")))
+		case k < 9:
+			var steps []string
+			for j, n := 0, 1+r.Intn(3); j < n; j++ {
+				sc := h2scripts[r.Intn(len(h2scripts))]
+				pp := "-"
+				if r.Intn(2) == 0 {
+					pp = randPP(r)
+				}
+				steps = append(steps, fmt.Sprintf("st%d,%s,%s,%s", j, sc, truthOf(sc, clientConf{}), pp))
+			}
+			out = append(out, fmt.Sprintf("k=run gun=http2/scenario tgt=tlsplan plan=%s dka=%d tlsto=5000 inst=%d n=%d%s steps=%s", plan, dka, inst, 1+r.Intn(4), opts, strings.Join(steps, ";")))
+		default:
+			// the http gun over TLS (`ssl: true`): every TLS server of the plan serves it, nothing is fatal for it
+			var reqs []string
+			for j := 2 + r.Intn(4); j > 0; j-- {
+				reqs = append(reqs, plainreqs[r.Intn(len(plainreqs))])
+			}
+			out = append(out, fmt.Sprintf("k=run gun=http tgt=tlsplan plan=%s ssl=1 dka=%d tlsto=5000 inst=%d m=%d%s reqs=%s", plan, dka, inst, 1+r.Intn(2), opts, strings.Join(reqs, ",")))
+		}
+	}
+	// every alert description once, as the first handshake of a run and between two good connections
+	for _, c := range alertCodes {
+		out = append(out, fmt.Sprintf("k=run gun=http2 tgt=tlsplan plan=a2.%d/h2 dka=0 tlsto=5000 inst=1 m=1 reqs=s200.bx5:r200,s404:r404", c))
+		if thorough {
+			out = append(out, fmt.Sprintf("k=run gun=http2 tgt=tlsplan plan=h2/a2.%d/h2 dka=1 tlsto=5000 inst=1 m=2 reqs=s200.bx5:r200,s404:r404", c))
+			out = append(out, fmt.Sprintf("k=run gun=http2/scenario tgt=tlsplan plan=h2/a2.%d/h2 dka=1 tlsto=5000 inst=1 n=2 steps=st0,s200.bjson,r200,J~result;st1,s404,r404,-", c))
+		}
+	}
+	out = append(out, "k=run gun=http2 tgt=tlsplan plan=stall/h2 dka=0 tlsto=700 inst=1 m=1 reqs=s200.bx5:r200,s404:r404")
+	out = append(out, "k=run gun=http2/scenario tgt=tlsplan plan=h2/stall/h2 dka=1 tlsto=700 inst=1 n=2 steps=st0,s200.bjson,r200,J~result;st1,s404,r404,-")
+	// the hostile HTTP/2 target (h2target.go): every framing-level behaviour x gun settings, for both http2 guns
+	h2acts := []string{"", "cont", "trailers", "1xx", "ping", "unknown", "zero", "window", "bytes", "rstmid2", "rstmid8", "rstmid13", "shortcl", "eofmid", "goawaymid",
+		"rst2", "rst5", "rst8", "rst11", "rst13", "rst255", "goaway0", "goaway2", "goaway11", "badhpack", "nostatus", "badstatus", "upper", "datafirst", "bigframe",
+		"push", "zerowin", "badset", "http1", "eof", "hugehdr", "longcl"}
+	h2script := func(act string) string {
+		sc := fmt.Sprintf("s%d.b%s", []int{200, 200, 200, 404, 500, 503, 999, 204, 304}[r.Intn(9)], []string{"json", "json", "html", "x7", "x40000", "badjson", "empty"}[r.Intn(7)])
+		if r.Intn(3) == 0 {
+			sc += ".hX-Val~" + hx(randASCII(r, r.Intn(8)))
+		}
+		if act != "" {
+			sc += ".acth2" + act
+		}
+		return sc
+	}
+	h2opts := []string{"", " alog=all", " alog=warning dbg=1", " dump=1 trace=1", " dbg=1", " alog=error dump=1", " dka=1", " alog=all trace=1 dump=1 dbg=1"}
+	for pass := 0; pass < mul(1, 12); pass++ {
+		for _, o := range h2opts {
+			var reqs []string
+			for _, a := range h2acts {
+				sc := h2script(a)
+				reqs = append(reqs, sc+":"+h2Truth(sc))
+			}
+			out = append(out, fmt.Sprintf("k=run gun=http2 tgt=h2raw tlsto=5000 inst=%d m=1%s reqs=%s", 1+r.Intn(2), o, strings.Join(reqs, ",")))
+			if !thorough && o != "" && o != " alog=warning dbg=1" {
+				continue
+			}
+			for _, a := range h2acts {
+				sc := h2script(a)
+				pp := []string{"-", "H~X-Val~s1:5+A~0~" + hx("x") + "~-~gt:1+J~result+X~divdata", "J~items", "X~count"}[r.Intn(4)]
+				step2 := h2script(h2acts[r.Intn(len(h2acts))])
+				out = append(out, fmt.Sprintf("k=run gun=http2/scenario tgt=h2raw tlsto=5000 inst=1 n=2%s steps=st0,%s,%s,%s;st1,%s,%s,%s", o, sc, h2Truth(sc), pp, step2, h2Truth(step2), randPP(r)))
+			}
+		}
+	}
 	// GRID: every gun setting x every class of response, one request / one step per class, for the three HTTP/1.1 guns;
 	// scenario steps carry one postprocessor of every kind
 	gridOpts := []string{"", " alog=all", " alog=warning", " alog=error", " trace=1", " dump=1", " dbg=1", " redir=1", " gz=1", " shc=2",
@@ -1016,6 +1175,22 @@ func class(input, obs string) string {
 		if strings.Contains(input, ",U") || strings.Contains(input, "+U") {
 			c += ":chained"
 		}
+		if m["tgt"] == "h2raw" {
+			c += ":h2-frames"
+		}
+		if m["tgt"] == "tlsplan" {
+			switch p := m["plan"]; {
+			case strings.Contains(p, "a2.120") || strings.Contains(p, "h1") || strings.Contains(p, "noalpn"):
+				c += ":fatal-conn"
+			case strings.Contains(p, "a") || strings.Contains(p, "cc"):
+				c += ":tls-alert"
+			case p != "h2" && p != "h2v12":
+				c += ":broken-handshake"
+			}
+			if m["dka"] == "1" {
+				c += ":dka"
+			}
+		}
 	}
 	if strings.Contains(obs, "res=panic") || strings.HasPrefix(obs, "PANIC") {
 		c += ":PANIC"
@@ -1048,7 +1223,11 @@ func main() {
 			"(any status incl. 000/999, empty/multi-MB/truncated bodies, malformed heads, bad chunking / Content-Length / Transfer-Encoding / gzip, 1xx storms, " +
 			"redirect loops, invalid JSON/HTML, short header values, early close, reset, refusal, silence; gRPC: any status code, undecodable / foreign / oversized " +
 			"messages, broken status details, server going away) with random lists of all postprocessor kinds, response-derived variables used by the next step, " +
-			"and random gun settings (answlog, httptrace, debug logging, redirects, gzip, shared clients); plus direct differential of the modifier / assertion / " +
+			"and random gun settings (answlog, httptrace, debug logging, redirects, gzip, shared clients, keep-alives off); TLS targets scripted per CONNECTION " +
+			"for the http2 / http2/scenario / https guns (a raw alert record of any level and description, EOF, reset, garbage, truncated / oversized records, a stall, " +
+			"servers without h2 or without ALPN, client-certificate demands, before and after connections that serve HTTP/2); a raw HTTP/2 target with full control " +
+			"of the FRAMES (CONTINUATION, trailers, interim blocks, PING / WINDOW_UPDATE floods, unknown frames, RST_STREAM / GOAWAY with any code, broken HPACK, " +
+			"missing or malformed :status, oversized frames and header blocks, PUSH_PROMISE, content-length mismatches, plain-text HTTP/1.1 on an h2 connection); plus direct differential of the modifier / assertion / " +
 			"extractor functions on random values and arguments and EXHAUSTIVELY on every substr(start[, end]) in a window around every short value length; " +
 			"non-trivial = at least one response processed",
 	})
